@@ -102,4 +102,9 @@ Definition oracle1 (obs : list (list N)) : bool :=
       bytes_eqb (mask_listing (List.length lm) lm) (mask_listing (List.length ld) ld) && bytes_eqb am_ ad
   | _ => true
   end.
-Definition oracle (ops : list dop) (obs : list (list (list N))) : bool := forallb oracle1 obs.
+(* ... and the requested change took effect: after every step exactly the (login, password) pairs the reference
+   account editor (Srv/Accounts.v) says can authenticate do authenticate (a password change takes effect, the
+   unchanged marker leaves it alone, a renamed-away login is gone, a renamed-to login works) *)
+Definition effect_ok (m o : list (list N)) : bool := bytes_match (nth 2 m []) (nth 2 o []) && bytes_match (nth 0 m []) (nth 0 o []).
+Definition oracle (ops : list dop) (obs : list (list (list N))) : bool :=
+  forallb oracle1 obs && list_eqb effect_ok (model ops) obs.
